@@ -255,7 +255,34 @@ func fired(f Fault, o runOut) bool {
 // monitor checks the third sentence of C04 on an un-faulted trace: new contents go
 // to a separate file (any other file: the property fixes neither its place nor its name), are flushed to
 // stable storage before they replace the live file, which is never written in place.
-func monitor(win []sysCall, live string) *h.Violation {
+func monitor(win []sysCall, live string, alsoLive ...string) *h.Violation {
+	// the live file may be reached under more than one name (the path given, and - when that is a
+	// symbolic link - the file it points to): replacing either one atomically is replacing the live file
+	isLive := func(name string) bool {
+		if name == live {
+			return true
+		}
+		for _, a := range alsoLive {
+			if a != "" && name == a {
+				return true
+			}
+		}
+		return false
+	}
+	renameOntoLive := func(line, tmp string) bool {
+		if !strings.Contains(line, `"`+tmp+`"`) {
+			return false
+		}
+		if strings.Contains(line, `"`+live+`"`) {
+			return true
+		}
+		for _, a := range alsoLive {
+			if a != "" && strings.Contains(line, `"`+a+`"`) {
+				return true
+			}
+		}
+		return false
+	}
 	openRE := regexp.MustCompile(`^openat\(AT_FDCWD, "([^"]*)", ([A-Z_|0-9x]+)(?:, [0-7]+)?\)\s+= (-?\d+)`)
 	tmpFD, tmpName := -1, ""
 	synced, wrote, renamed := false, false, false
@@ -270,7 +297,7 @@ func monitor(win []sysCall, live string) *h.Violation {
 			var fd int
 			fmt.Sscan(m[3], &fd)
 			writeMode := strings.Contains(flags, "O_WRONLY") || strings.Contains(flags, "O_RDWR") || strings.Contains(flags, "O_TRUNC") || strings.Contains(flags, "O_APPEND")
-			if name == live && writeMode {
+			if isLive(name) && writeMode {
 				return h.V("live-file-never-written-in-place", "the live file was opened for writing: %s", c.Line)
 			}
 			if writeMode && fd >= 0 {
@@ -296,7 +323,7 @@ func monitor(win []sysCall, live string) *h.Violation {
 				synced = true
 			}
 		case "renameat", "rename", "renameat2":
-			if !strings.Contains(c.Line, `"`+tmpName+`"`) || !strings.Contains(c.Line, `"`+live+`"`) {
+			if !renameOntoLive(c.Line, tmpName) {
 				return h.V("replaces-the-live-file-by-rename", "unexpected rename: %s (temporary %q, live %q)", c.Line, tmpName, live)
 			}
 			if !synced {
@@ -315,7 +342,18 @@ func monitor(win []sysCall, live string) *h.Violation {
 
 // monitorInPlace checks only the clause that must hold on EVERY run, faulted or not: the live file
 // is never opened for writing, truncated, or written through a descriptor of its own.
-func monitorInPlace(calls []sysCall, live string) *h.Violation {
+func monitorInPlace(calls []sysCall, live string, alsoLive ...string) *h.Violation {
+	isLive := func(name string) bool {
+		if name == live {
+			return true
+		}
+		for _, a := range alsoLive {
+			if a != "" && name == a {
+				return true
+			}
+		}
+		return false
+	}
 	openRE := regexp.MustCompile(`^openat\(AT_FDCWD, "([^"]*)", ([A-Z_|0-9x]+)(?:, [0-7]+)?\)\s+= (-?\d+)`)
 	for _, c := range calls {
 		switch c.Name {
@@ -325,7 +363,7 @@ func monitorInPlace(calls []sysCall, live string) *h.Violation {
 				continue
 			}
 			flags := m[2]
-			if m[1] == live && (strings.Contains(flags, "O_WRONLY") || strings.Contains(flags, "O_RDWR") || strings.Contains(flags, "O_TRUNC") || strings.Contains(flags, "O_APPEND")) {
+			if isLive(m[1]) && (strings.Contains(flags, "O_WRONLY") || strings.Contains(flags, "O_RDWR") || strings.Contains(flags, "O_TRUNC") || strings.Contains(flags, "O_APPEND")) {
 				return h.V("live-file-never-written-in-place", "the live file was opened for writing: %s", c.Line)
 			}
 		case "truncate":
